@@ -595,8 +595,18 @@ func eqEdge(ma, mb func(ssa.Value) bool, wantEqual bool) EdgePred {
 // matchers on values
 
 func isCallResult(idx int, keys ...string) func(ssa.Value) bool {
+	// remember which results the current property's rules test: the thorough tier audits every call site of
+	// these functions for a discarded result (thorough.go, ignoredGuardResults)
+	for _, k := range keys {
+		if guardCallees[k] == nil {
+			guardCallees[k] = map[int]bool{}
+		}
+		guardCallees[k][idx] = true
+	}
 	return func(v ssa.Value) bool { return isResultOfCall(v, idx, keys...) != nil }
 }
+
+var guardCallees = map[string]map[int]bool{}
 
 func isLoadOfField(key string) func(ssa.Value) bool {
 	return func(v ssa.Value) bool {
